@@ -286,11 +286,21 @@ class Real:
         return 'r'
 
     def digest(self):
+        try:
+            return self._digest()
+        except Exception as e:      # a changed pipeline must show up as a disagreement, never crash the engine
+            return 'digest-error:' + type(e).__name__
+
+    def _digest(self):
         p = self.pipeline
         q = p._item_queue
         entries = sorted(q._queue._queue)
-        pills = len([e for e in entries if e[0] == 0])
-        items = [e[2] for e in entries if e[0] != 0]
+        from wpull.pipeline.pipeline import POISON_PILL
+        pills = len([e for e in entries if e[2] is POISON_PILL])
+        items = [e[2] for e in entries if e[2] is not POISON_PILL]
+        if pills and items and entries[0][2] is not POISON_PILL:
+            # an item ahead of a poison pill: not representable in the model's queue (pills first)
+            items = ['item!' + items[0][4:]] + items[1:]
         if len(items) > 1:
             qitem = '+'.join(items)
         else:
@@ -361,7 +371,7 @@ def run_real(n, k, conc, src_fail, policy_or_actions, rng=None, inj=None, cont=N
                                 'src_raised': real.src_raised})
         p = real.pipeline
         res = {
-            'qpoints': qpoints,
+            'qpoints': qpoints, 'in_flight_end': sorted(real.parked),
             'actions': actions, 'steps': steps, 'bad': bad,
             'main': 'b' if bad == 'busy-loop' else real.main_status(),
             'enabled': [] if bad == 'busy-loop' else real.enabled(),
@@ -469,6 +479,10 @@ def oracle(ctx, case, res):
             kind, where = 'hang', 'exhausted'
         ctx.fail(kind, where, case, hang)
         return
+    if res['main'] == 'r' and res.get('in_flight_end'):
+        ctx.fail('returned-early', 'shutdown', case,
+                 'process() returned while item(s) %r were still inside a task (begun, not through every task)'
+                 % (res['in_flight_end'],))
     if res['main'] == 'r':
         if failure:
             ctx.fail('error-swallowed', 'shutdown', case,
@@ -546,7 +560,7 @@ def gen_random(ctx, rng, count):
     for _ in range(count):
         n = rng.choice([0, 1, 1, 2, 2, 3, 3, 4, 5, 6])
         k = rng.choice([1, 1, 2, 2, 3])
-        conc = rng.choice([0, 1, 1, 2, 2, 3])
+        conc = rng.choice([0, 1, 1, 2, 2, 3, 3, 4])
         src_fail = rng.random() < 0.12
         style = rng.random()
         inj = {'max': 0}
@@ -635,6 +649,61 @@ def gen_pause_failure(ctx, rng, count):
     return out
 
 
+STOP_VARIANTS = ['stop', 'stop', 'stop-fail-last', 'source-raises', 'source-raises-fail-last', 'stop-queued']
+
+
+def gen_stop_busy(ctx, rng, count):
+    """Stop scenarios: every worker busy (concurrency 1-4) and, when possible, the next item already in the queue
+    when stop() is called / the source raises; the in-flight items then finish at different times (process() steps
+    in between), the last one possibly raising."""
+    out = []
+    for ix in range(count):
+        variant = STOP_VARIANTS[ix % len(STOP_VARIANTS)]
+        conc = rng.choice([1, 2, 3, 3, 4, 4])
+        k = rng.choice([1, 1, 2, 3])
+        src = variant.startswith('source')
+        n = conc if src else conc + rng.choice([1, 2, 3])
+        st = {'phase': 0, 'left': None}
+
+        def picker(real, actions, st=st, variant=variant, conc=conc, src=src):
+            en = real.enabled()
+            if not en:
+                return None
+            tasks = [a for a in en if a[0] == 'T']
+            others = [a for a in en if a[0] != 'T']
+            if st['phase'] == 0:
+                queued = real.pipeline._item_queue._queue.qsize() > 0
+                if len(tasks) >= conc and (src or queued or not others):
+                    st['phase'] = 1
+                    st['left'] = len(tasks)
+                    if not src:
+                        return 'S'
+                if src and real.src_raised:
+                    st['phase'] = 1
+                    st['left'] = len(tasks)
+                if len(tasks) >= conc and src and 'P' in en:
+                    return 'P'
+                if others:
+                    return rng.choice(others)
+                return rng.choice(en)
+            # after the stop / the source failure: staggered completions, process() runs in between
+            if 'M' in en and rng.random() < 0.75:
+                return 'M'
+            if others and rng.random() < 0.6:
+                return rng.choice(others)
+            if tasks:
+                a = rng.choice(tasks)
+                if variant.endswith('fail-last') and len(tasks) == 1 and real.holder_last(a):
+                    return 'X' + a[1:]
+                return a
+            return rng.choice(en)
+        case = {'n': n, 'k': k, 'conc': conc, 'src_fail': src}
+        res = run_real(n, k, conc, src, [], picker=picker)
+        res['variant'] = variant
+        out.append((case, res))
+    return out
+
+
 def enumerate_scope(ctx, n, k, conc, src_fail, inject, limit):
     """Every schedule (DFS over the enabled actions of the real side) with the injection `inject`
     ('S', 'C0', 'C2', 'X', None) made at every position.  One real run per leaf: a run replays a stored
@@ -689,7 +758,7 @@ def free_run(ctx, rng, count):
     for _ in range(count):
         n = rng.choice([0, 1, 2, 3, 4, 6])
         k = rng.choice([1, 2, 3])
-        conc = rng.choice([0, 1, 2, 3])
+        conc = rng.choice([0, 1, 2, 3, 4])
         src_fail = rng.random() < 0.1
         seed = rng.randrange(1 << 30)
         plan = {'stop_at': rng.choice([None, None, rng.randrange(1, 40)]),
@@ -746,7 +815,8 @@ def run_free(case):
             started = True
         p = real.pipeline
         pend = (real.src_fut is not None and not real.src_fut.done()) or bool(real.parked)
-        res = {'actions': [], 'steps': [], 'bad': bad, 'main': 'b' if bad else real.main_status(),
+        res = {'in_flight_end': sorted(real.parked),
+               'actions': [], 'steps': [], 'bad': bad, 'main': 'b' if bad else real.main_status(),
                'enabled': ['?'] if (pend or not real.loop.idle()) else [], 'all_log': list(real.all_log), 'log': list(real.log),
                'state': p._state.value, 'conc': p._concurrency, 'stop_called': real.stop_called,
                'src_raised': real.src_raised, 'task_raised': real.task_raised, 'error': None, 'given': real.given,
@@ -759,6 +829,15 @@ def run_free(case):
 
 
 # ------------------------------------------------------------------ entry points
+def stop_with_item_queued(res):
+    """Was stop() called in a state with an item in the queue and at least one item inside a task?"""
+    for ix, a in enumerate(res['actions']):
+        if a == 'S' and ix > 0:
+            f = res['steps'][ix - 1].split(';')[1].split(',')
+            return f[4] != '-' and 'T' in res['steps'][ix - 1].split(';')[-1]
+    return False
+
+
 def load_corpus(ctx):
     out = []
     for p in sorted(glob.glob(os.path.join(ctx.verif, 'harness', 'corpus', 'C13', '*.json'))):
@@ -808,6 +887,13 @@ def run(ctx):
     ctx.tag('pause:task-raised-while-paused', len([1 for c, r in pf if failed_while_paused(r['actions'])]))
     ctx.tag('pause:ended-paused-without-resume',
             len([1 for c, r in pf if r['main'] == 'p' and not r['enabled']]))
+    # stop / source failure with every worker busy (concurrency up to 4) and an item queued; staggered finishes
+    sb = gen_stop_busy(ctx, ctx.subrng('stop-busy'), ctx.scale(600, 6000))
+    check_cases(ctx, sb, tags=['stop-busy-scenario'])
+    for v in sorted(set(STOP_VARIANTS)):
+        ctx.tag('stop-busy:' + v, len([1 for c, r in sb if r.get('variant') == v]))
+    ctx.tag('stop-busy:stop-with-item-queued-and-all-busy',
+            len([1 for c, r in sb if stop_with_item_queued(r)]))
     free_run(ctx, ctx.subrng('free'), ctx.scale(2000, 15000))
     # exhaustive small scopes: every schedule, one injection at every position
     if not thorough:
@@ -822,7 +908,7 @@ def run(ctx):
     for (n, k, c) in scopes:
         for inject in injections:
             for sf in ([False, True] if (thorough and inject is None) else [False]):
-                res, whole = enumerate_scope(ctx, n, k, c, sf, inject, ctx.scale(400, 1000))
+                res, whole = enumerate_scope(ctx, n, k, c, sf, inject, ctx.scale(900, 1000))
                 total += len(res)
                 report.append(['%d items x %d tasks, concurrency %d, inject %s%s' % (n, k, c, inject, ', source raises' if sf else ''),
                                len(res), 'complete' if whole else 'capped'])
@@ -837,4 +923,5 @@ def search(ctx):
     rng = ctx.subrng('search')
     check_cases(ctx, gen_random(ctx, rng, ctx.scale(300, 1000)))
     check_cases(ctx, gen_pause_failure(ctx, rng, ctx.scale(100, 300)), tags=['pause-scenario'])
+    check_cases(ctx, gen_stop_busy(ctx, rng, ctx.scale(100, 300)), tags=['stop-busy-scenario'])
     free_run(ctx, rng, ctx.scale(100, 300))
